@@ -14,6 +14,7 @@ pub mod c02;
 #[cfg(feature = "sodium")]
 pub mod c03;
 pub mod c04;
+pub mod c16;
 #[cfg(feature = "nightly")]
 pub mod c14;
 #[cfg(feature = "nightly")]
@@ -53,6 +54,7 @@ pub fn dispatch(name: &str, cx: &mut Ctx) -> bool {
         #[cfg(feature = "sodium")]
         "c03" => c03::run(cx),
         "c04" => c04::run(cx),
+        "c16" => c16::run(cx),
         #[cfg(feature = "nightly")]
         "c14" => c14::run(cx),
         #[cfg(feature = "nightly")]
